@@ -59,9 +59,20 @@
     rejected ([Frag0Example.ex7_flat]: 96 keys, 24 accepted).  The number of keys
     of a round then has no closed form; it comes from the general counting
     theorem (Random/KeysCount.v).
-    Missing: derived factors with derived or complex sources, transition /
-    window factors, LatinSquare, preambles / complex windows / sustained
-    crossings (where the sampled crossing itself is checked by rejection).  Outside the fragment the property is decided per run by the
+    SUSTAINED CROSSINGS (Nest): the sampled crossing is the first one with
+    sustain count 1, at any position ([Frag.main_idx]); the other crossings may
+    have a sustain count > 1 (size = sum of weights x sustain).  Their factors
+    are free factors for the sampler; that they keep their level for [sustain]
+    trials is enforced by rejection ([Sustain.potential_sample_conforms],
+    Random/Frag1Cons.v [f1_sustain] = the sustain clause of [Sem.factor_ok]), the
+    crossing itself by [combinations_mismatched_weights] with weight x sustain
+    (Random/CrossReject.v).  Guard: the trial count is a multiple of every
+    sustain count (otherwise the check indexes past the end of a row) and a
+    Sustain constraint is listed whenever a sustain count is not 1.
+    Missing: derived factors with derived or complex sources, uncrossed derived
+    factors of [act_design], transition / window factors, LatinSquare, preambles
+    / complex windows (where the sampled crossing itself is checked by
+    rejection), constraints with a sustained geometry.  Outside the fragment the property is decided per run by the
     search of harness/props/c05.py and the C04 harness (exhausted RandomGen vs.
     oracle). *)
 From Coq Require Import ZArith List.
@@ -131,3 +142,10 @@ Proof.
   split; [exact ex6_frag2|]. split; [exact ex6_derived|]. split; [exact ex6_nkeys|]. split; [exact ex6_nacc|]. split; [exact ex6_sound|].
   split; [exact ex7_frag2|]. split; [exact ex7_nkeys|]. split; [exact ex7_nacc | exact ex7_sound].
 Qed.
+
+(** a nested design: crossings [[task]; [color]] with sustain counts [2; 1]; the second one is sampled, Sustain and the
+    task crossing are enforced by rejection: 64 keys, 8 accepted = 8 valid *)
+Example C04_example_nested :
+  frag2 ex8_flat = true /\ main_idx ex8_flat = 1 /\ length (keys_of ex8_flat) = 64 /\
+  length (accepted_keys ex8_flat) = 8 /\ check_sound ex8_flat = true.
+Proof. split; [exact ex8_frag2|]. split; [exact ex8_main|]. split; [exact ex8_nkeys|]. split; [exact ex8_nacc | exact ex8_sound]. Qed.
